@@ -377,7 +377,14 @@ func init() {
 	}
 	H["(*regexp.Regexp).MatchString"] = func(e *Engine, fc *fnCtx, st *State, c *ssa.CallCommon, a []Val, r types.Type) (Val, bool) {
 		e.sc.declareFun("reMatch", []string{"Int", "String"}, "Bool")
-		return boolRes("(reMatch " + a[0].T + " " + a[1].T + ")")
+		uf := "(reMatch " + a[0].T + " " + a[1].T + ")"
+		if re, ok := e.regexOf(c.Args[0]); ok {
+			if smt, ok := regexMatchSMT(re.String()); ok {
+				e.assume(st, eq(uf, "(str.in_re "+a[1].T+" "+smt+")"))
+				e.w.Trusted["regexp literal translated to SMT-LIB regular expression (bytes; ASCII classes): "+re.String()] = true
+			}
+		}
+		return boolRes(uf)
 	}
 	pureSpecMethods["(*regexp.Regexp).MatchString"] = func(e *Engine, env *SpecEnv, a []Val) Val {
 		e.sc.declareFun("reMatch", []string{"Int", "String"}, "Bool")
@@ -394,6 +401,11 @@ func init() {
 		}
 		isNil := e.sc.declareConst("nomatch", "Bool")
 		e.sc.assert(implies(st.Reach, implies(not(isNil), and(facts...))))
+		if re, ok := e.regexOf(c.Args[0]); ok {
+			if smt, ok := regexMatchSMT(re.String()); ok {
+				e.assume(st, eq(isNil, not("(str.in_re "+a[1].T+" "+smt+")")))
+			}
+		}
 		res := Val{T: e.sc.define("sm", "Slice", ite(isNil, "(mk_slice 0 0 0 0)", v.T)), S: "Slice", GoT: r}
 		return res, true
 	}
